@@ -113,6 +113,18 @@ CHECKS = {
         technique="Lean 4 proof over per-location kernels regenerated from source + differential correspondence",
         design="§4 C20",
     ),
+    "C04": dict(
+        text=("Proof (Lean 4): for g x = a*x+b with a > 0, f(g obs, g H, g F) = g(f(obs, H, F)) for the window functions of all eight debiasers with temperature-like settings "
+              "(LinearScaling / DeltaChange additive; QuantileMapping parametric over any location-scale family - clipped or not, since clipping acts on unit-free cdf values - and non-parametric; "
+              "ECDFM; QDM absolute incl. year windows; SDM absolute; CDFt for all 2 x 9 ecdf/iecdf pairs incl. year windows; ISIMIP additive unbounded steps 3-7 with the regression slope modelled "
+              "exactly), pure rescaling for the multiplicative LinearScaling / DeltaChange (with a negative witness that they are not shift-equivariant), from general affine laws of sorting, ranks, ecdf and "
+              "all nine iecdf methods; lifted to seasonal, month and year windows through the write-back skeleton (index sets depend on dates only). ISIMIP's has_* flags are regenerated from the source "
+              "(tier A) and proved false for infinite settings. Tier B: layer-N correspondence of every window function against the real code; oracle: K / degC / degF maps on the real debiasers."),
+        note=("Trusted: scipy.stats.norm is assumed to satisfy the location-scale laws (proved only for the rational test-double family); ISIMIP's significance and KS decisions are oracles assumed identical in both units; "
+              "np.argsort modelled as the stable sort; float rounding carried by the correspondence tolerance."),
+        technique="Lean 4 proof over a rational model of the window functions + skeleton lift + differential correspondence",
+        design="§4 C04",
+    ),
 }
 
 
